@@ -16,6 +16,13 @@ use serde_json::{json, Value};
 
 /// Where evidence, replays and the known-findings file live (overridable so that experiments on a scratch copy of the
 /// repository do not touch the registered evidence)
+static EXCLUSIVE: std::sync::atomic::AtomicBool = std::sync::atomic::AtomicBool::new(false);
+
+/// True while a case is being rerun alone (no other case, no second exploration worker, runs in this process)
+pub fn exclusive() -> bool {
+    EXCLUSIVE.load(Ordering::SeqCst)
+}
+
 pub fn verif_dir() -> String {
     std::env::var("BPPMC_VERIF_DIR").unwrap_or_else(|_| "/verif".to_string())
 }
@@ -59,6 +66,9 @@ pub struct CaseResult {
     pub violations: Vec<(String, String)>,
     /// machinery errors (never a verdict)
     pub machinery: Vec<String>,
+    /// the case asks to be run again with nothing else running in this process (its result looked dependent on what other
+    /// cases were doing at the same time: process-wide state in the subject)
+    pub retry_exclusive: bool,
     /// extra states visited inside the case (e.g. schedules, sub-cases) beyond the case itself
     pub extra_states: u64,
     pub sample: Option<Value>,
@@ -72,6 +82,7 @@ pub struct CaseResult {
 impl CaseResult {
     pub fn new(outcome: impl Into<String>) -> CaseResult {
         CaseResult {
+            retry_exclusive: false,
             outcome: outcome.into(),
             ..Default::default()
         }
@@ -370,7 +381,29 @@ impl Report {
                 });
             }
         });
-        let results = results.into_inner().unwrap();
+        let mut results = results.into_inner().unwrap();
+        // cases whose result looked dependent on concurrently running cases are rerun one at a time, nothing else running
+        let retry: Vec<usize> = (0..n).filter(|i| results[*i].as_ref().map(|r| r.retry_exclusive).unwrap_or(false)).collect();
+        if !retry.is_empty() {
+            EXCLUSIVE.store(true, Ordering::SeqCst);
+            for i in retry {
+                let c = &cases[i];
+                let r = match std::panic::catch_unwind(std::panic::AssertUnwindSafe(|| c.run(verbose))) {
+                    Ok(mut r) => {
+                        *r.outcome_counter("rerun-alone(result depended on concurrently running cases)") += 1;
+                        r
+                    },
+                    Err(e) if e.downcast_ref::<crate::common::HonestPrecondition>().is_some() => CaseResult::new("honest-precondition-failed(skipped)"),
+                    Err(_) => {
+                        let mut r = CaseResult::new("HARNESS-PANIC");
+                        r.machinery_error(format!("harness panicked outside the subject on case {} (exclusive rerun)", c.key()));
+                        r
+                    },
+                };
+                results[i] = Some(r);
+            }
+            EXCLUSIVE.store(false, Ordering::SeqCst);
+        }
         let mut order: Vec<usize> = (0..n).collect();
         let keys: Vec<String> = cases.iter().map(|c| format!("{}/{}", family, c.key())).collect();
         order.sort_by(|a, b| keys[*a].cmp(&keys[*b]));
